@@ -9,7 +9,7 @@ From SV Require Import KV.KvBase KV.KvLex KV.KvParse KV.KvSym KV.KvRoundtrip.
 From SV Require Import Fmt.VmfText Fmt.VmfTextProofs Fmt.VmfBlocks Fmt.VmfBlocksProofs Fmt.VmfFields Fmt.VmfFieldsProofs.
 From SV Require Import Fmt.VmfNum Fmt.VmfNumProofs Fmt.VmfGuard Fmt.VmfGuardProofs.
 From SV Require Import Fmt.VmfLite Fmt.VmfLiteProofs Fmt.VmfFlags Fmt.VmfFlagsProofs Fmt.VmfTok Fmt.VmfTokProofs Fmt.VmfPlane Fmt.VmfPlaneProofs.
-From SV Require Import Fmt.VmfIds Fmt.VmfIdsProofs Fmt.VmfTree Fmt.VmfTreeProofs Fmt.VmfSets Fmt.VmfSetsProofs.
+From SV Require Import Fmt.VmfIds Fmt.VmfIdsProofs Fmt.VmfTree Fmt.VmfTreeProofs Fmt.VmfSets Fmt.VmfSetsProofs Fmt.VmfViewport Fmt.VmfViewportProofs.
 From SV Require Import Gen.VmfTemplates_gen Gen.VmfKeys_gen Gen.VmfDispSizes_gen Gen.VmfOrder_gen Gen.VmfProg_gen Gen.VmfFieldsCfg_gen Gen.VmfNumFmt_gen Gen.VmfLite_gen Gen.VmfFlags_gen.
 Import ListNotations.
 
@@ -380,3 +380,19 @@ Proof. exact members_content. Qed.
 Theorem c06_membership_iteration_order_refuted : same_set [8; 1]%Z [1; 8]%Z /\
   write_members false [8; 1]%Z <> write_members false [1; 8]%Z /\ write_members true [8; 1]%Z = write_members true [1; 8]%Z.
 Proof. exact members_iteration_order_refuted. Qed.
+
+(** 17. The planar axis of a 2D viewport (round 4).  Gen/VmfViewport_gen.v holds the three slots the writer's template
+    fills for each axis (marker constant, u, v), the tiers of marker values the reader tries in order and the table from the
+    chosen axis to the axes of u and v.  If they pass [vp_ok], a 2D viewport whose u and v are not marker values re-reads as
+    itself -- a zero coordinate included, which the pinned tree (zero accepted as a marker alongside +-65536) lost. *)
+Theorem c06_viewport_axis_roundtrip : forall tiers tbl inv, vp_ok tiers tbl inv = true ->
+  forall t1 r, tiers = t1 :: r ->
+  forall a u v, in_tier t1 u = false -> in_tier t1 v = false ->
+  vp_read tiers inv (vp_write tbl a u v) = Some (a, u, v).
+Proof. exact vp_roundtrip. Qed.
+Theorem c06_viewport_zero_marker_refuted : vp_ok ex_tiers_zero_first ex_tbl ex_inv = false /\ vp_read ex_tiers_zero_first ex_inv (vp_write ex_tbl AY 0 5) = None.
+Proof. exact vp_zero_marker_refuted. Qed.
+Theorem c06_viewport_marker_as_coordinate_refuted : vp_read ex_tiers ex_inv (vp_write ex_tbl AX 65536 5) = None.
+Proof. exact vp_marker_as_coordinate_refuted. Qed.
+Example c06_viewport_example : vp_ok ex_tiers ex_tbl ex_inv = true /\ vp_read ex_tiers ex_inv (vp_write ex_tbl AY 0 5) = Some (AY, 0%Z, 5%Z).
+Proof. exact vp_example. Qed.
